@@ -2,15 +2,14 @@ package main
 
 import (
 	"fmt"
+	"math"
 
 	"github.com/golang/geo/s2"
 )
 
 func main() {
-	for _, d := range []float64{1e-100, 1e-158, 1e-160, 1e-162, 1e-170, 1e-300} {
-		a0, a1 := s2.Point{Vector: s2.PointFromCoords(1, 0, 0).Vector}, s2.Point{Vector: s2.PointFromCoords(0, 1, 0).Vector}
-		b0, b1 := s2.PointFromCoords(1, 0, -d), s2.PointFromCoords(0, 1, d)
-		x := s2.Intersection(a0, a1, b0, b1)
-		fmt.Println(d, s2.CrossingSign(a0, a1, b0, b1), x, x.Norm())
-	}
+	a0, a1 := s2.PointFromCoords(1, -1e-60, 0), s2.PointFromCoords(1, 1e-60, 0)
+	b0, b1 := s2.PointFromCoords(1, 0, -1e-60), s2.PointFromCoords(1, 5e-61, 1e-60)
+	x, y := s2.Intersection(a0, a1, b0, b1), s2.Intersection(b0, b1, a0, a1)
+	fmt.Println(math.Signbit(x.Z), math.Signbit(y.Z), x, y)
 }
